@@ -293,6 +293,7 @@ from .rules import version_rules  # noqa: E402
              "Not decided: termination and absence of all exceptions on all programs.")
 def c17(ctx, rep):
     _r(output_rules.rule_outputs_complete, ctx, rep)
+    _r(output_rules.rule_main_print, ctx, rep)
     _r(output_rules.rule_context_annotations, ctx, rep)
     _r(cfg_rules.rule_cfg_shapes, ctx, rep)
     _r(cfg_rules.rule_no_mutation_under_iteration, ctx, rep)
@@ -376,4 +377,5 @@ from .rules import regex_rules  # noqa: E402
              "Not decided: all programs and patterns beyond the enumerated space.")
 def c20(ctx, rep):
     _r(regex_rules.rule_regex, ctx, rep)
+    _r(output_rules.rule_main_regex, ctx, rep)
     _r(optable.rule_prefix_and_roundtrip, ctx, rep)
